@@ -20,6 +20,8 @@ import (
 	"time"
 
 	"github.com/vimeo/dials"
+	jsondec "github.com/vimeo/dials/decoders/json"
+	"github.com/vimeo/dials/sources/static"
 	"github.com/vimeo/dials/sourcewrap"
 	"github.com/vimeo/dials/tagformat"
 	"github.com/vimeo/dials/tagformat/caseconversion"
@@ -291,4 +293,83 @@ func c20StructSlices(c *Ctx, r *RNG) {
 		ok = compare(fmt.Sprintf("update %d %v", i, vals[i]))
 	}
 	res.Case(canon, empties > 0 && nup >= 2, cs)
+}
+
+// ---------- one transforming decoder instance, several config types ----------
+//
+// A decoder value is not tied to a type: the same NewTransformingDecoder(...) instance (a package-level decoder, a
+// decoder shared by two subsystems) may be asked for different config types in turn, and each Decode must translate
+// the type IT was given.
+
+type c20DA struct {
+	Name  string   `dials:"name"`
+	Ports []int    `dials:"ports"`
+	Tags  []string `dials:"tags"`
+}
+
+type c20DB struct {
+	Name    string            `dials:"name"`
+	Hosts   map[string]string `dials:"hosts"`
+	Retries int               `dials:"retries"`
+	Peers   []c20Peer         `dials:"peers"`
+	Debug   bool              `dials:"debug"`
+}
+
+func c20SharedDecoder(c *Ctx, r *RNG) {
+	res := c.Res
+	mk := func() dials.Decoder {
+		return sourcewrap.NewTransformingDecoder(&jsondec.Decoder{}, tagformat.NewTagReformattingMangler("dials", caseconversion.DecodeLowerSnakeCase, caseconversion.EncodeLowerCamelCase),
+			&tagformat.TagCopyingMangler{SrcTag: "dials", NewTag: "json"})
+	}
+	shared := mk()
+	order := r.Intn(2)
+	docA := fmt.Sprintf(`{"name":"a%d","ports":[%d,%d],"tags":["t%d"]}`, r.Intn(100), r.Intn(1000), r.Intn(1000), r.Intn(10))
+	docB := fmt.Sprintf(`{"name":"b%d","hosts":{"x":"h%d"},"retries":%d,"peers":[{"hostName":"p%d","port":%d}],"debug":true}`, r.Intn(100), r.Intn(100), r.Intn(10), r.Intn(100), r.Intn(1000))
+	cs := map[string]any{"stream": "one transforming decoder, two config types", "first": []string{"A", "B"}[order], "docA": docA, "docB": docB}
+	runA := func(dec dials.Decoder) (string, error) {
+		d, err := dials.Config(context.Background(), &c20DA{}, &static.StringSource{Data: docA, Decoder: dec})
+		if err != nil {
+			return "", err
+		}
+		return fmt.Sprintf("%+v", *d.View()), nil
+	}
+	runB := func(dec dials.Decoder) (string, error) {
+		d, err := dials.Config(context.Background(), &c20DB{}, &static.StringSource{Data: docB, Decoder: dec})
+		if err != nil {
+			return "", err
+		}
+		return fmt.Sprintf("%+v", *d.View()), nil
+	}
+	var gotA, gotB, wantA, wantB string
+	var eA, eB, weA, weB error
+	pn := catch(func() {
+		if order == 0 {
+			gotA, eA = runA(shared)
+			gotB, eB = runB(shared)
+		} else {
+			gotB, eB = runB(shared)
+			gotA, eA = runA(shared)
+		}
+		// a second round through the same instance (re-reads of a watched file)
+		if eA == nil && eB == nil {
+			if a2, _ := runA(shared); a2 != gotA {
+				gotA = a2 + " (second decode differs from the first: " + gotA + ")"
+			}
+		}
+	})
+	wantA, weA = runA(mk())
+	wantB, weB = runB(mk())
+	res.Count("shared-decoder/first=" + cs["first"].(string))
+	switch {
+	case pn != "":
+		res.Add(Finding{Kind: "violation", What: "a transforming decoder used for a second config type panicked: " + pn, Case: cs})
+	case weA != nil || weB != nil:
+		res.Add(Finding{Kind: "violation", What: fmt.Sprintf("a fresh transforming decoder failed on a valid document: %v %v", weA, weB), Case: cs})
+	case eA != nil || eB != nil:
+		res.Add(Finding{Kind: "violation", What: fmt.Sprintf("the shared transforming decoder failed where a fresh one succeeds: %v %v", eA, eB), Case: cs})
+	case gotA != wantA || gotB != wantB:
+		res.Add(Finding{Kind: "violation", What: "a transforming decoder that had decoded another config type before returns a different config than a fresh one", Case: cs,
+			Expected: wantA + " / " + wantB, Observed: gotA + " / " + gotB})
+	}
+	res.Case("D2|"+docA+docB+cs["first"].(string), true, cs)
 }
